@@ -1,5 +1,6 @@
 import BoltonsVerif.C17.Proofs2
 import BoltonsVerif.C17.Readers
+import BoltonsVerif.C17.ArgsProofs
 import BoltonsVerif.C17.HeapProofs
 /-
 C17 — property theorems (statements + short derivations from `Proofs.lean`, and
@@ -174,6 +175,56 @@ example : (OTO.ofPairs [(1, 2), (3, 4), (5, 2)] : OTO Nat) = ⟨[(5, 2), (3, 4)]
 /-- hypotheses of `oto_update_installs_all` on a colliding target: both old pairs are evicted, all three new ones land -/
 example : ((OTO.ofPairs [(1, 2), (3, 4)] : OTO Nat).update [(1, 4), (3, 9), (7, 2)]).fwd = [(1, 4), (3, 9), (7, 2)]
     ∧ ([(1, 4), (3, 9), (7, 2)].map Prod.fst).Nodup ∧ ([(1, 4), (3, 9), (7, 2)].map Prod.snd).Nodup := by decide
+
+/-! ## OneToOne, caller level (`Args.lean`, round 3): arguments as the caller built them
+
+dict / OrderedDict / keyword arguments hold a key once (first position, last value); a one-shot iterator is an object
+the caller may keep, consume from and pass again; the callee makes ONE pass over its argument. -/
+
+/-- MAIN at caller level: after any history of constructors / `unique` / `copy` / mutators / `update` and `|=` with
+    dict, pair-list, fresh or held one-shot iterator, another instance (either side, itself included) and keyword
+    arguments - with iterators created, partly consumed by the caller and passed again in between - every instance
+    satisfies the invariant, so both sides hold exactly the same pairs, transposed -/
+theorem otoA_invariant (cmds : List (OtoCmdA α)) (st : OtoSt α) (h : otoRunA OtoSt.empty cmds = some st) :
+    ∀ s ∈ st.regs, s.WF ∧ ∀ k v, (k, v) ∈ s.fwd ↔ (v, k) ∈ s.inv := by
+  obtain ⟨cs', hcs'⟩ := otoRunA_lower cmds h
+  intro s hs
+  exact ⟨oto_invariant cs' st.regs hcs' s hs, oto_exact_inverses cs' st.regs hcs' s hs⟩
+
+/-- a one-shot iterator gives what it has left to the first pass made over it, is empty afterwards (a second pass over
+    the same object gets nothing), and no other iterator is touched -/
+theorem otoA_iter_one_shot (st : OtoSt α) (i : Nat) (ps : List (α × α)) (its : List (List (α × α)))
+    (h : takeArg st (.iter i) = some (ps, its)) :
+    st.iters[i]? = some ps ∧ its[i]? = some [] ∧ (∀ j, j ≠ i → its[j]? = st.iters[j]?) ∧
+    takeArg ⟨st.regs, its⟩ (.iter i) = some ([], its) :=
+  takeArg_iter_one_shot st i ps its h
+
+/-- a dict / OrderedDict / keyword argument delivers each key of the raw pairs once, with the last value written -/
+theorem otoA_dict_arg (st : OtoSt α) (raw : List (α × α)) :
+    takeArg st (.dict raw) = some (putAll [] raw, st.iters) ∧ NodupKeys (putAll ([] : Dict α α) raw) ∧
+    (∀ k, k ∈ keys (putAll ([] : Dict α α) raw) ↔ k ∈ keys raw) ∧
+    (∀ (raw' : List (α × α)) k v a, lookup a (putAll ([] : Dict α α) (raw' ++ [(k, v)]))
+      = if a = k then some v else lookup a (putAll ([] : Dict α α) raw')) :=
+  takeArg_dict st raw
+
+/-- `x.update(it)` with a held one-shot iterator whose remaining pairs do not collide with each other: ALL of them are
+    installed on both sides - the first one included (8b557fc) - and the iterator is left empty -/
+theorem otoA_update_iter_installs_all (st st' : OtoSt α) (ret : Ret α) (r i : Nat) (s : OTO α) (ps : List (α × α))
+    (hr : st.regs[r]? = some s) (w : s.WF) (hi : st.iters[i]? = some ps)
+    (hk : (ps.map Prod.fst).Nodup) (hv : (ps.map Prod.snd).Nodup)
+    (h : otoCmdA st (.update r false (.iter i) []) = some (st', ret)) :
+    st'.regs[r]? = some (s.update ps) ∧ (∀ p ∈ ps, p ∈ (s.update ps).fwd ∧ swap p ∈ (s.update ps).inv) ∧
+    st'.iters[i]? = some [] :=
+  update_iter_installs_all st st' ret r i s ps hr w hi hk hv h
+
+/-! non-vacuity: an iterator of three pairs, one taken by the caller, passed to `update` (two pairs land), passed
+    again to another instance's constructor (nothing left); a dict argument written with key 1 twice delivers
+    `[(1, 6), (2, 6)]`, so `2: 6` evicts `1: 6` (the raw list applied in order would end with `1: 6`) -/
+example : otoRunA (OtoSt.empty : OtoSt Nat)
+    [.new .none [], .mkIter [(1, 2), (3, 4), (5, 6)], .next 0, .update 0 false (.iter 0) [(7, 8)], .new (.iter 0) [],
+     .update 0 true (.dict [(1, 5), (2, 6), (1, 6)]) []]
+    = some ⟨[⟨[(3, 4), (5, 6), (7, 8), (6, 2)], [(4, 3), (6, 5), (8, 7), (2, 6)]⟩, ⟨[], []⟩], [[]]⟩ := by decide
+example : takeArg (⟨[], [[(3, 4), (5, 6)]]⟩ : OtoSt Nat) (.iter 0) = some ([(3, 4), (5, 6)], [[]]) := by decide
 
 /-! ## ManyToMany
 
